@@ -647,6 +647,12 @@ class World:
         v = self.codec.dec(op['v'])
         out = write_struct(RepresentationCode[op['code']], v)
         r['bytes'] = bytes(out).hex()
+        # the caller keeps what it was given (a list of encoded values joined later): results of EARLIER encodes still hold their bytes
+        kept = self.__dict__.setdefault('_enc_kept', [])
+        changed = [i for i, (o, h) in enumerate(kept) if bytes(o).hex() != h]
+        if changed:
+            r['earlier_changed'] = len(changed)
+        kept.append((out, r['bytes']))
 
     def op_item_id(self, op, r):
         """The bytes emitted for an object's identity: as the object's own component, as an OBNAME and as an OBJREF value."""
